@@ -267,6 +267,12 @@ class Evaluator:
                 return self.norm_sum_iter(('map', it[1], ('lam', d, T.ite(p, T.as_lin(T.bv(d)), T.const(0)))))
         return it
 
+    def fresh_binders(self, t):
+        lows = [x[1] for x in T.subterms(t) if isinstance(x, tuple) and len(x) == 3 and x[0] in ('lam', 'lam2') and isinstance(x[1], int)]
+        if not lows or min(lows) >= self.bvd:
+            return t
+        return T.shift_binders(t, min(lows), self.bvd - min(lows) + 1)
+
     def count_stage(self, name, it, n):
         """take / skip commute with map; on a range they move its bounds"""
         if name in ('take', 'skip') and isinstance(it, tuple) and it and it[0] == 'map':
@@ -288,6 +294,11 @@ class Evaluator:
                 return ('map', it[1], ('lam', lam[1], body))
         if name == 'map' and lam[0] == 'lam' and lam[2] in (T.bv(lam[1]), T.as_lin(T.bv(lam[1]))):
             return it       # map(it, |x| x)
+        if name == 'filter' and isinstance(it, tuple) and it and it[0] == 'map' and it[2][0] == 'lam' and lam[0] == 'lam':
+            # filter(map(X, f), p)  ==  map(filter(X, p . f), f)
+            inner = it[2]
+            pf = T.substitute(lam[2], {T.bv(lam[1]): self.shift_bv(inner[2], inner[1], lam[1])})
+            return ('map', ('filter', it[1], ('lam', lam[1], pf)), ('lam', lam[1], self.shift_bv(inner[2], inner[1], lam[1])))
         if name == 'filter_map' and lam[0] == 'lam' and isinstance(lam[2], tuple) and lam[2] and lam[2][0] == 'boolthen':
             # filter_map(|x| c(x).then(|| v(x)))  ==  filter(c).map(v)
             return self.stage('map', ('filter', it, ('lam', lam[1], lam[2][1])), ('lam', lam[1], lam[2][2]))
@@ -334,7 +345,7 @@ class Evaluator:
         elif k == 'Struct':
             name = p['path'].get('def', p['path'].get('name', '?'))
             for f in p['fields']:
-                self.bind(f['p'], T.fld(val, f['name']), env)
+                self.bind(f['p'], T.fld(val, self.field_name(name, f['name'])), env)
         elif k == 'Guard':
             self.bind(p['p'], val, env)
         elif k in ('Or', 'Slice'):
@@ -411,6 +422,27 @@ class Evaluator:
                     continue
                 v = self.ev(init, env, body, depth)
                 if st.get('els') is not None:
+                    # let PAT = init else { <diverges> };   ==   if !(init matches PAT) { <diverges> }  then bind
+                    cond = self.full_pattern_cond(st['pat'], v)
+                    els = st['els']
+                    if cond is not None:
+                        last = els.get('expr')
+                        if last is None and els.get('stmts') and els['stmts'][-1]['k'] in ('Expr', 'Semi'):
+                            last = els['stmts'][-1]['e']
+                        nstm = len(els.get('stmts', [])) - (0 if els.get('expr') is not None else 1)
+                        if last is not None and last.get('k') == 'Ret' and nstm <= 0:
+                            def inner():
+                                rv = self.ev(last['e'], env, body, depth) if last.get('e') else ('unit',)
+                                self.emit('ret', last, body, value=rv, joined=True)
+                                return ('ret', rv)
+                            elsev = self.with_pc([T.tnot(cond)], inner)
+                        else:
+                            self.with_pc([T.tnot(cond)], lambda: self.ev(els, dict(env), body, depth))
+                            elsev = ('never',)
+                        self.bind(st['pat'], v, env)
+                        rest = {'k': 'Block', 'stmts': stmts[idx + 1:], 'expr': b.get('expr')}
+                        restv = self.with_pc([cond], lambda: self.ev_block(rest, env, body, depth))
+                        return self.join(T.tnot(cond), elsev, restv)
                     v = ('letelse', v)
                 self.bind(st['pat'], v, env)
             elif k in ('Expr', 'Semi'):
@@ -595,10 +627,23 @@ class Evaluator:
     def ev_Field(self, e, env, body, depth):
         b = self.ev(e['e'], env, body, depth)
         bty = strip_refs(e.get('base_ty', ''))
+        if bty.startswith('std::boxed::Box<'):
+            bty = bty[len('std::boxed::Box<'):].rsplit('>', 1)[0].split(',')[0]
         base_adt = bty.split('<')[0]
         if base_adt in self.newtypes and self.newtypes[base_adt] == e['name']:
             return b
-        return T.fld(b, e['name'])
+        return T.fld(b, self.field_name(base_adt, e['name']))
+
+    def field_name(self, adt_path, name):
+        """fields of a crate-private struct are named by position (`#0`, `#1`, ..): renaming them, or turning a private
+        tuple struct into one with named fields, is not observable"""
+        adt = self.crate.adts.get(adt_path)
+        if not adt or adt.get('kind') != 'Struct' or str(adt.get('vis', '')) == 'Public' or len(adt.get('variants', [])) != 1:
+            return name
+        names = [f['name'] for f in adt['variants'][0]['fields']]
+        if name in names:
+            return '#' + str(names.index(name))
+        return name
 
     def ev_Index(self, e, env, body, depth):
         b = self.ev(e['e'], env, body, depth)
@@ -619,6 +664,7 @@ class Evaluator:
         fields = {f['name']: self.ev(f['e'], env, body, depth) for f in e['fields']}
         if ty_adt in self.newtypes and len(fields) == 1 and self.newtypes[ty_adt] in fields:
             return fields[self.newtypes[ty_adt]]
+        fields = {self.field_name(ty_adt, k): v for k, v in fields.items()}
         # range expressions are struct literals after desugaring
         short = ty_adt.split('::')[-1]
         if short in ('Range', 'RangeFrom', 'RangeTo', 'RangeFull', 'RangeInclusive') and 'ops' in ty_adt or ty_adt.startswith('std::range') or ty_adt.startswith('core::range'):
@@ -631,7 +677,65 @@ class Evaluator:
         if 'base' in e:
             basev = self.ev(e['base'], env, body, depth)
             return ('struct_upd', ty_adt or path, tuple(sorted(fields.items())), basev)
+        ad = self.iterator_adapter(ty_adt or path, fields)
+        if ad is not None:
+            return ad
         return T.struct(ty_adt or path, fields)
+
+    def iterator_adapter(self, ty, fields):
+        """a crate-local struct whose Iterator::next only pulls one item from an iterator it holds in a field and maps it
+        through a function of its other (never assigned) fields is that map: S { inner: it, k } == it.map(|x| g(x, k))"""
+        if not hasattr(self, '_adapters'):
+            self._adapters = {}
+        if ty not in self._adapters:
+            self._adapters[ty] = None
+            nxt = None
+            import re as _re
+            for imp in self.crate.impls:
+                if imp.get('trait') == 'std::iter::Iterator' and _re.sub(r'/#\d+', '', strip_refs(imp.get('self_ty', ''))).split('<')[0] == ty:
+                    for it in imp['items']:
+                        if it['name'] == 'next':
+                            nxt = self.crate.body(it['path'])
+            if nxt is not None and not self.has_loop(nxt):
+                sub = Evaluator(self.crate, self.max_depth)
+                ph = T.struct(ty, {f: ('v', '@field:' + f) for f in fields})
+                try:
+                    top = T.unroot(sub.eval_body(nxt, [ph]))
+                except RecursionError:
+                    top = None
+                pulls = [x for x in sub.events if x['kind'] == 'mutcall']
+                bad = [x for x in sub.events if x['kind'] in ('assign', 'loop', 'panic')]
+                if top is not None and len(pulls) == 1 and not bad and pulls[0]['callee'] == 'std::iter::Iterator::next':
+                    src = T.unroot(pulls[0]['args'][0])
+                    if isinstance(src, tuple) and len(src) == 2 and src[0] == 'v' and str(src[1]).startswith('@field:'):
+                        item = ('case', ('nextof', ('elems', src)), 'Some', 0)
+                        g = None
+                        if isinstance(top, tuple) and top and top[0] == 'some' and T.mentions(top[1], item):
+                            rets = [x for x in sub.events if x['kind'] == 'ret']
+                            if all(x['value'] == ('none',) for x in rets):
+                                g = ('body', top[1], item)
+                        elif isinstance(top, tuple) and top and top[0] == 'optmap' and top[1] == ('nextof', ('elems', src)) and top[2][0] == 'lam':
+                            g = ('lam', top[2])
+                        if g is not None:
+                            self._adapters[ty] = (src[1][len('@field:'):], g)
+        ad = self._adapters[ty]
+        if ad is None:
+            return None
+        fname, g = ad
+        if fname not in fields:
+            return None
+        inner = self.as_iter(fields[fname])
+        phs = {('v', '@field:' + f): v for f, v in fields.items() if f != fname}
+        d = self.bvd
+        if g[0] == 'body':
+            bodyt = T.substitute(g[1], {g[2]: T.bv(d)})
+            if T.mentions(bodyt, ('v', '@field:' + fname)):
+                return None
+            bodyt = T.substitute(bodyt, phs)
+            return self.stage('map', inner, ('lam', d, bodyt))
+        lam = g[1]
+        bodyt = T.substitute(T.shift_binders(lam, lam[1], max(0, d - lam[1]))[2], phs)
+        return self.stage('map', inner, ('lam', max(d, lam[1]), bodyt))
 
     def ev_Closure(self, e, env, body, depth):
         return self.make_closure(e, env, body, depth)
@@ -810,7 +914,7 @@ class Evaluator:
                     subs.append(c)
             elif k == 'Struct':
                 for f in p['fields']:
-                    v = ('case', su, short, int(f['name'])) if f['name'].isdigit() else T.fld(scrut, f['name'])
+                    v = ('case', su, short, int(f['name'])) if f['name'].isdigit() else T.fld(scrut, self.field_name(path, f['name']))
                     c = self.full_pattern_cond(f['p'], v)
                     if c is None:
                         return None
@@ -1267,8 +1371,10 @@ class Evaluator:
                 break
             if k == 'Field':
                 bty = strip_refs(p.get('base_ty', '')).split('<')[0]
+                if bty.startswith('std::boxed::Box'):
+                    bty = strip_refs(p.get('base_ty', ''))[len('std::boxed::Box<'):].rsplit('>', 1)[0].split(',')[0].split('<')[0]
                 if not (bty in self.newtypes and self.newtypes[bty] == p['name']):
-                    fields.append(p['name'])
+                    fields.append(self.field_name(bty, p['name']))
                 p = p['e']
             elif k in ('DropTemps', 'Use', 'AddrOf') or (k == 'Unary' and p.get('op') == 'Deref'):
                 p = p['e']
@@ -1308,7 +1414,7 @@ class Evaluator:
         names = [f['name'] for f in adt['variants'][0]['fields']]
         if not names or any(n.isdigit() for n in names) or bty.split('<')[0] in self.newtypes:
             return cur
-        return T.struct(bty.split('<')[0], {n: T.fld(cur, n) for n in names})
+        return T.struct(bty.split('<')[0], {self.field_name(bty.split('<')[0], n): T.fld(cur, self.field_name(bty.split('<')[0], n)) for n in names})
 
     def update_field(self, cur, fields, v):
         f = fields[0]
@@ -1428,7 +1534,7 @@ class Evaluator:
             return ('err', args[0])
         if path in self.newtypes and len(args) == 1:
             return args[0]
-        return T.struct(path, {str(i): a for i, a in enumerate(args)})
+        return T.struct(path, {self.field_name(path, str(i)): a for i, a in enumerate(args)})
 
     def ev_Call(self, e, env, body, depth):
         f = e['f']
@@ -1640,6 +1746,11 @@ class Evaluator:
         # --- iterator adaptors (std::iter::Iterator::*, itertools::Itertools::*)
         is_iter_method = path.startswith('std::iter::Iterator::') or path.startswith('itertools::Itertools::') \
             or path.startswith('std::iter::DoubleEndedIterator::') or path.startswith('itertools::')
+        if is_iter_method and self.bvd > 0:
+            # an iterator value built in an outer scope (e.g. a collected Vec) may carry lambda binders numbered below the
+            # binders of the closure it is now used in: renumber them past the current depth (no capture)
+            args = [self.fresh_binders(a) if i == 0 or name in BINARY_STAGES else a for i, a in enumerate(args)]
+            a0 = args[0] if args else None
         if is_iter_method:
             if name in LAMBDA_STAGES and len(args) == 2:
                 it0 = self.as_iter(a0)
@@ -1899,6 +2010,11 @@ class Evaluator:
                 return T.cmp('Le', su[2], su[1]), T.sub(su[1], su[2])
             if su[0] == 'boolthen':
                 return su[1], su[2]
+            if su[0] in ('first', 'last', 'front', 'back') and len(su) == 2:
+                # v.first() / v.last() is Some(v[0]) / Some(v[len - 1]) iff v is not empty
+                n = T.root(('len', su[1]))
+                ix = T.const(0) if su[0] in ('first', 'front') else T.sub(n, T.const(1))
+                return T.cmp('Ge', n, T.const(1)), T.root(('idx', su[1], ix))
         return None
 
     def opt_or(self, o, d):
